@@ -44,7 +44,9 @@ func evalC17Crowd(c *Ctx, cs EnumCase) EnumResult {
 	}
 	var vs []explore.Violation
 	name := fmt.Sprintf("%d holders, first-in first-out release, LockId %d comes back", a.N, a.Relock)
-	add := func(sig, msg string) { vs = append(vs, explore.Violation{Sig: "C17:" + sig + "/crowded-key-fifo", Msg: name + ": " + msg}) }
+	add := func(sig, msg string) {
+		vs = append(vs, explore.Violation{Sig: "C17:" + sig + "/crowded-key-fifo", Msg: name + ": " + msg})
+	}
 	var engErr, obs string
 	rt := vrt.Run(vrt.Options{MaxPoints: 400_000_000}, func() {
 		node := hapi.Factories["n0"](hapi.Config{FastKeys: 1, Concurrent: 1})
